@@ -80,15 +80,18 @@ void h_pw_fp_seq(void) {
  * carquet_page_writer_null_count / _get_statistics).  Real reset + add_values; bounded: <= 2 add_values calls
  * of <= 4 rows each after a reset, any earlier page content.  Encoders/buffers have no body here (results
  * arbitrary): only the counting is under test. */
-/* assumed contracts of the callees (results arbitrary, no effect on the page writer's counters) */
-carquet_status_t carquet_encode_plain_boolean(const uint8_t *v, int64_t n, carquet_buffer_t *o) { return nondet_int() ? CARQUET_OK : CARQUET_ERROR_OUT_OF_MEMORY; }
-carquet_status_t carquet_encode_plain_int32(const int32_t *v, int64_t n, carquet_buffer_t *o) { return nondet_int() ? CARQUET_OK : CARQUET_ERROR_OUT_OF_MEMORY; }
-carquet_status_t carquet_encode_plain_byte_array(const carquet_byte_array_t *v, int64_t n, carquet_buffer_t *o) { return nondet_int() ? CARQUET_OK : CARQUET_ERROR_OUT_OF_MEMORY; }
+/* assumed contracts of the callees (results arbitrary, no effect on the page writer's counters);
+ * ghost pw_callee_failed: some callee reported a failure since the harness reset it */
+static _Bool pw_callee_failed;
+static carquet_status_t pw_any(void) { if (nondet_int()) return CARQUET_OK; pw_callee_failed = 1; return CARQUET_ERROR_OUT_OF_MEMORY; }
+carquet_status_t carquet_encode_plain_boolean(const uint8_t *v, int64_t n, carquet_buffer_t *o) { return pw_any(); }
+carquet_status_t carquet_encode_plain_int32(const int32_t *v, int64_t n, carquet_buffer_t *o) { return pw_any(); }
+carquet_status_t carquet_encode_plain_byte_array(const carquet_byte_array_t *v, int64_t n, carquet_buffer_t *o) { return pw_any(); }
 void carquet_buffer_clear(carquet_buffer_t *b) { b->size = 0; }
 void carquet_buffer_init(carquet_buffer_t *b) { b->data = NULL; b->size = 0; b->capacity = 0; }
 void carquet_buffer_destroy(carquet_buffer_t *b) { }
-carquet_status_t carquet_buffer_append(carquet_buffer_t *b, const void *d, size_t n) { return nondet_int() ? CARQUET_OK : CARQUET_ERROR_OUT_OF_MEMORY; }
-carquet_status_t carquet_rle_encode_all(const uint32_t *v, int64_t n, int bw, carquet_buffer_t *o) { return nondet_int() ? CARQUET_OK : CARQUET_ERROR_OUT_OF_MEMORY; }
+carquet_status_t carquet_buffer_append(carquet_buffer_t *b, const void *d, size_t n) { return pw_any(); }
+carquet_status_t carquet_rle_encode_all(const uint32_t *v, int64_t n, int bw, carquet_buffer_t *o) { return pw_any(); }
 static int64_t pw_nulls_of(const int16_t *def, int64_t n, int16_t md, int has_def) {
   int64_t c = 0;
   if (!has_def || md <= 0) return 0;
@@ -111,11 +114,17 @@ void h_pw_null_count(void) {
   __CPROVER_assume(n1 >= 0 && n1 <= 4 && n2 >= 0 && n2 <= 4);
   for (int i = 0; i < 4; i++) { __CPROVER_assume(d1[i] >= 0 && d1[i] <= w->max_def_level); __CPROVER_assume(d2[i] >= 0 && d2[i] <= w->max_def_level); }
   int16_t md = w->max_def_level;
-  (void)carquet_page_writer_add_values(w, vals, n1, has1 ? d1 : NULL, NULL);
+  pw_callee_failed = 0;
+  carquet_status_t st1 = carquet_page_writer_add_values(w, vals, n1, has1 ? d1 : NULL, NULL);
+  __CPROVER_assert(st1 != CARQUET_OK || !pw_callee_failed, "C19: add_values returns OK only if level encoding, value encoding and every buffer append succeeded");
+  if (st1 != CARQUET_OK) { CQV_CANARY("pw nulls: add_values can fail"); free(w); return; }
   int64_t expect = pw_nulls_of(d1, n1, md, has1);
   int64_t rows = n1;
   if (two) {
-    (void)carquet_page_writer_add_values(w, vals, n2, has2 ? d2 : NULL, NULL);
+    pw_callee_failed = 0;
+    carquet_status_t st2 = carquet_page_writer_add_values(w, vals, n2, has2 ? d2 : NULL, NULL);
+    __CPROVER_assert(st2 != CARQUET_OK || !pw_callee_failed, "C19: add_values (second batch) returns OK only if every callee succeeded");
+    if (st2 != CARQUET_OK) { free(w); return; }
     expect += pw_nulls_of(d2, n2, md, has2);
     rows += n2;
     CQV_CANARY("pw nulls: two batches");
